@@ -241,6 +241,18 @@ class Ctx:
         print(f'[{self.prop}] tier={self.tier} obligations={n_ob} discharged={discharged} known={len(self.known_hits)} '
               f'unconfirmed={len(self.unconfirmed)} undecided={len(undecided)} violations={len(self.violations)} '
               f'paths={self.paths_total} queries={self.queries} solver={self.solver_s:.1f}s wall={wall:.1f}s')
+        # keep only the scenarios that reproduce a reported violation / known finding
+        keep = {o.replay for o in self.obligations if o.status in ('violated', 'known') and getattr(o, 'replay', None)}
+        keep |= {v[2] for v in self.violations if v[2]}
+        rd = os.path.join(evdir, 'replays')
+        if os.path.isdir(rd):
+            for f in os.listdir(rd):
+                fp = os.path.join(rd, f)
+                if f.startswith(self.prop + '-') and fp not in keep:
+                    try:
+                        os.remove(fp)
+                    except OSError:
+                        pass
         if self.violations:
             return 1
         return 0
